@@ -43,6 +43,8 @@ def check(prop, tier, seed):
     lines = []
     replay_paths = {}
     min_budget = scn.BUDGET[tier].get("minimise", 120)
+    if os.environ.get("VERIF_MINIMISE"):
+        min_budget = int(os.environ["VERIF_MINIMISE"])      # tools/eval_seeded.py: many signatures, no need to shrink each
     for sig in sorted(by_sig):
         cases = [c for c in by_sig[sig] if c["plan"] is not None]
         if sig in known:
